@@ -184,6 +184,18 @@ func checkC15(e *Env) {
 			}
 			// one unknown token as large as the buffers of the standard library's scanners and
 			// readers, at the start, in the middle and at the end of a sentence of acceptable count
+			// a list word with a combining mark in FRONT of it (right after the separator)
+			rm := rng.New(e.Seed, "C15-markfirst-"+itoa(lang))
+			for mi, mark := range []string{"\u0308", "\u0301", "\u3099", "\u0323"} {
+				n := ref.WordCounts[(mi+lang)%5]
+				w := m.Words(rm.Bytes(n+n/3), lang)
+				pos := 1 + rm.Intn(n-1)
+				t := append([]string(nil), w...)
+				t[pos] = mark + w[pos]
+				if _, in := m.Index[lang][t[pos]]; !in {
+					send(c15exp{lang: lang, s: strings.Join(t, " "), defect: "unknown", n: n, unknown: []string{t[pos]}, sub: "mark-in-front-of-a-list-word"})
+				}
+			}
 			rh := rng.New(e.Seed, "C15-huge-"+itoa(lang))
 			for hi, size := range []int{4096, 65535, 65536, 70000} {
 				n := ref.WordCounts[(hi+lang)%5]
